@@ -39,6 +39,9 @@ def inputs(tier):
             out.append(dict(src='c08', d=dict(kind='alt', layout=lay, partial=partial) if partial else dict(kind='alt', layout=lay)))
     for lay in ([[1, 'ASP'], [2, 'ASPnoCG']], [[1, 'ASPnoCG'], [2, 'ASP']], [[1, 'ASP'], [2, 'ALA']]):
         out.append(dict(src='c08', d=dict(kind='model', layout=lay)))
+    # residues that follow each other in the file, carry the same number and differ in the chain id only (free amino acids, ligand copies)
+    for a, b in (('ASP', 'LYS'), ('GLU', 'HIS'), ('TYR', 'ARG'), ('ACT', 'ACT'), ('MAM', 'ACT'), ('CYS', 'CYS')):
+        out.append(dict(src='samenum', a=a, b=b))
     for c in c01.stream_cases('quick'):
         toks = c['tokens']
         if len(toks) == 3 and c['dev'] <= 1 and (any(t[1] == 'twin' or t[2] == 'blank' for t in toks[1:]) or c['start'][0] < 0) and \
@@ -54,6 +57,19 @@ def build(inp, seed):
     if inp['src'] == 'stream':
         items = c01.build_stream(inp['d'], seed)
         return None if items is None else gen.S(items)
+    if inp['src'] == 'samenum':
+        parts = []
+        for k, (kind, chain) in enumerate(((inp['a'], 'A'), (inp['b'], 'B'))):
+            if kind in gen.TEMPLATES:
+                part = gen.ligand(kind, chain, 7, origin=(0, 0, 0))
+            else:
+                atoms = c01.add_oxt(c01.token_residue(kind))
+                for a in atoms:
+                    a.chain, a.resnum = chain, 7
+                part = gen.S(atoms)
+            part.translate((7000 * k, 300 * k, 0))
+            parts.append(part)
+        return gen.S(parts[0].items + ['TER\n'] + parts[1].items + ['TER\n']).translate(gen.seed_offset(seed)).renumber_serials()
     return corpus.build(inp['d'], seed)
 
 
@@ -111,7 +127,8 @@ def plan(tier, seed):
     return dict(shards=shards, exhaustive=True,
                 rule=('inputs: 4/6-residue windows of 4 proteins, docked pairs (5x10 kinds), clusters, 9 A cut-outs, twin/blank-chain '
                       'streams; lists: all subsets of the reportable residues when there are <= %d of them, else singletons, '
-                      'singleton complements and the full set; each list also with two non-existent entries appended; the '
+                      'singleton complements and the full set; each list also with two non-existent entries appended, the empty and singleton lists also with near-miss entries '
+                      '(real number under an absent chain id / another insertion code / +1000); residues of different chains with equal numbers that follow each other in the file; the '
                       'list of every residue of the structure. non-trivial = distinct (input, list) where the list selects a '
                       'proper non-empty subset of the reportable residues') % (6 if tier == 'quick' else 8),
                 bounds=dict(inputs=len(ins), max_full_subsets=6 if tier == 'quick' else 8), samples=[ins[0], ins[len(ins) // 2]])
@@ -159,6 +176,10 @@ def run_case(case, ctx, acc):
             lists.append([x for x in reportable if x != r])
         lists.append(list(reportable))
     ghost = [('X', 9999, ' '), (reportable[0][0], 8888, 'Z')]
+    # near misses: a real number under a chain id the file does not have, under another insertion code, and shifted by 1000
+    other_chain = next(c for c in 'QWXYZK' if c not in {r[0] for r in reportable})
+    near = [(other_chain, r[1], r[2]) for r in reportable[:3]] + [(r[0], r[1], 'Z' if r[2] != 'Z' else 'Y') for r in reportable[:2]] + \
+        [(r[0], r[1] + 1000, r[2]) for r in reportable[:1]]
     allres = []
     for a in s.atoms:
         k = (a.chain.strip() or '_', a.resnum, a.icode)
@@ -167,8 +188,9 @@ def run_case(case, ctx, acc):
     jobs = [(L, False) for L in lists] + [(L, True) for L in lists if len(L) in (1, len(reportable))]
     if len(allres) <= 60:
         jobs.append((allres, False))
+    jobs += [(L, 'near') for L in lists if len(L) in (0, 1)]
     for L, with_ghost in jobs:
-        entries = list(L) + (ghost if with_ghost or not L else [])
+        entries = list(L) + (near if with_ghost == 'near' else (ghost if with_ghost or not L else []))
         opts = ('-i', arg_of(entries))
         sub = dict(case, titrate_only=opts[1])
         m = pk.run(text, opts)
